@@ -20,12 +20,14 @@ const O_NEXT: u8 = 0;
 const O_SET: u8 = 1; // a = ratio bits, b = method
 const O_PROBE: u8 = 2;
 const O_DRAIN: u8 = 3;
+const O_INTO_SOURCE: u8 = 4;
 
-static OPS: [OpSpec; 4] = [
+static OPS: [OpSpec; 5] = [
     OpSpec { name: "next", shrink: 0 },
     OpSpec { name: "set_ratio", shrink: 2 },
     OpSpec { name: "is_exhausted", shrink: 0 },
     OpSpec { name: "drain_until_exhausted", shrink: 0 },
+    OpSpec { name: "into_source", shrink: 0 },
 ];
 
 const F_RATIO_CHANGE: usize = 0;
@@ -312,13 +314,14 @@ where
     let linear = src.cfg("interp", 0, 1, |r| r.range(0, 1)) == 1;
     let mul_hz = src.cfg("mul_hz", 0, 1, |r| r.chance(1, 3) as i64) == 1;
     let dyadic = src.cfg("dyadic", 0, 1, |r| r.chance(3, 5) as i64) == 1;
-    let len = src.cfg("src_len", -1, 60, |r| match r.below(8) {
-        0 => -1,
-        1 => r.range(0, 2),
+    let len = src.cfg("src_len", -1, 5000, |r| match r.below(16) {
+        0 | 1 => -1,
+        2 | 3 => r.range(0, 2),
+        4 => r.range(200, 5000),
         _ => r.range(0, 60),
     });
     let len = if len < 0 { None } else { Some(len as u64) };
-    let long = src.cfg("long_run", 0, 1, |r| r.chance(1, 200) as i64) == 1;
+    let long = src.cfg("long_run", 0, 1, |r| r.chance(1, 60) as i64) == 1;
     let steps = src.cfg("steps", 0, 4000, |r| if long { r.range(1000, 4000) } else { r.range(1, 120) }) as usize;
     if long {
         obs.probe(P_LONG_RUN);
@@ -387,7 +390,7 @@ where
             if drain_first && done == 0 {
                 return Some(Op::k(O_DRAIN));
             }
-            let w = [20u32, if mul_hz { 0 } else { 4 }, 2, if len.is_some() && !mul_hz { 1 } else { 0 }];
+            let w = [40u32, if mul_hz { 0 } else { 8 }, 4, if len.is_some() && !mul_hz { 2 } else { 0 }, if mul_hz { 0 } else { 1 }];
             Some(match r.weighted(&w) as u8 {
                 O_SET => {
                     let v = if dyadic { dyadic_ratio(r) } else { free_ratio(r) };
@@ -516,11 +519,21 @@ where
                         obs.fault(F_EOF);
                     }
                 }
-                let abs = ((m.p >> (Q - 2)) as u64 & 3) << 8 | (m.src_exhausted_after(before) as u64) << 1 | linear as u64;
+                let ratio_class = if m.ratio < 1.0 { 0u64 } else if m.ratio == 1.0 { 1 } else if m.ratio < 2.0 { 2 } else { 3 };
+                let abs = linear as u64
+                    | (mul_hz as u64) << 1
+                    | (dyadic as u64) << 2
+                    | (m.src_exhausted_after(before) as u64) << 3
+                    | ((m.p >> (Q - 2)) as u64 & 3) << 4
+                    | ratio_class << 6
+                    | (after - before).min(3) << 8
+                    | ((m.p & ((1u128 << Q) - 1) == 0) as u64) << 10;
                 obs.state(abs, op.k);
             }
             O_DRAIN => {
-                if mul_hz || len.is_none() {
+                // (a drain that would take more than ~150k outputs is not worth the time: skipped)
+                let too_long = len.map(|l| (l as f64 + 2.0) / m.ratio > 150_000.0).unwrap_or(true);
+                if mul_hz || len.is_none() || too_long {
                     src.skip_last();
                     obs.skipped();
                     continue;
@@ -529,8 +542,8 @@ where
                 let fresh = m.n == 0;
                 let taken = sut.take().unwrap();
                 let got: Vec<F> = match taken {
-                    Sut::FloorDirect(c) => c.until_exhausted().take(200_000).collect(),
-                    Sut::LinearDirect(c) => c.until_exhausted().take(200_000).collect(),
+                    Sut::FloorDirect(c) => c.until_exhausted().take(400_000).collect(),
+                    Sut::LinearDirect(c) => c.until_exhausted().take(400_000).collect(),
                     _ => unreachable!(),
                 };
                 // model: step until exhausted
@@ -581,6 +594,35 @@ where
                     }
                 }
                 obs.fault(F_EOF);
+                return Ok(());
+            }
+            O_INTO_SOURCE => {
+                if mul_hz {
+                    src.skip_last();
+                    obs.skipped();
+                    continue;
+                }
+                obs.tick(op.k);
+                // hand the source back: it must stand exactly behind the last frame the converter consumed
+                let taken = sut.take().unwrap();
+                let mut back = match taken {
+                    Sut::FloorDirect(c) => c.into_source(),
+                    Sut::LinearDirect(c) => c.into_source(),
+                    _ => unreachable!(),
+                };
+                let (klo, khi) = m.floor_lo_hi(m.p_prev);
+                let f = back.next();
+                let ok = (klo..=khi).any(|k| f == src_frame::<F>(id, len, m.prime + k));
+                check!(
+                    obs,
+                    ok,
+                    "converter.source-position",
+                    "after {} outputs (position {}) into_source() resumes with {:?}, expected source frame {}",
+                    m.n,
+                    m.p_prev as f64 / 2f64.powi(Q as i32),
+                    f,
+                    m.prime + klo
+                );
                 return Ok(());
             }
             _ => {
@@ -650,7 +692,7 @@ impl Scenario for ConverterScenario {
     }
     fn runs(&self, tier: &str) -> u64 {
         if tier == "quick" {
-            300_000
+            700_000
         } else {
             30_000_000
         }
